@@ -300,6 +300,7 @@ def run(ctx):
     _codec.rule_float_sat(ctx, cd, "R-C01-FLOAT-SAT")
     _codec.rule_clamp(ctx, cd, "R-C01-CLAMP")
     _codec.rule_union_tag(ctx, cd, "ser", "R-C01-TAG")
+    _codec.rule_nested_window(ctx, cd, "R-C01-NESTED-WINDOW")
     _codec.rule_offset_sets(ctx, cd, "ser", "R-C01-OFFSET-SET")
     _codec.rule_padding(ctx, cd, "ser", "R-C01-PADDING")
     _codec.rule_pad_body(ctx, cd, "ser", "R-C01-PAD-BODY")
